@@ -27,7 +27,7 @@ CONSTANTS Circs,      \* the circuits the explored calls address (a subset of Ci
           MaxLen      \* bound on the history length
 
 AllDev == {"OpCacheKeyedByName", "NodeCacheSurvives", "ApplyWritesVariations", "ToYamlWritesDefaults", "ClearSkipsWhenNoIR",
-           "CollectEdgesAppends", "UpdateVarNoCopy", "EdgeMapStale", "StateStash", "TemplateCacheByPath", "UpdateVarInPlaceWhenPrivate"}
+           "CollectEdgesAppends", "UpdateVarNoCopy", "EdgeMapStale", "StateStash", "TemplateCacheByPath", "UpdateVarInPlaceWhenPrivate", "DerivedSharesEdgeDicts"}
 
 (* ------------------------------ the universe ------------------------------ *)
 OpIds == {"o1", "o2", "o3", "o4"}
@@ -281,8 +281,11 @@ UpdateVar(c, sel, var, arr, zero) ==
 
 (* update_var(edge_vars=[(source, target, {'weight': w})]) *)
 UpdateEdge(c, q) ==
-  /\ "update_edge" \in Calls /\ q \in 1..Len(ce[c])
-  /\ ce' = [ce EXCEPT ![c][q].w = 50 + q]
+  /\ "update_edge" \in Calls /\ q \in 1..Len(ce[c]) /\ Usable(c)
+  /\ LET other == IF c = "c1" THEN "d1" ELSE "c1"
+         \* historic deviation: a derived circuit referenced the attribute dicts of its base's edges
+         both == "DerivedSharesEdgeDicts" \in Dev /\ c \in {"c1", "d1"} /\ dhas
+     IN ce' = [cc \in CircIds |-> IF cc = c \/ (both /\ cc = other) THEN [ce[cc] EXCEPT ![q].w = 50 + q] ELSE ce[cc]]
   /\ last' = NoObs
   /\ tr' = Append(tr, [a |-> "update_edge", c |-> c, vec |-> FALSE, clr |-> FALSE, node |-> q, var |-> "weight", val |-> 50 + q, dec |-> FALSE])
   /\ UNCHANGED <<tv, od, cn, opCache, nodeCache, stash, yhot, yhas, yfresh, hasIr, dhas, alias, handles, fired>>
